@@ -2,11 +2,11 @@
 # usage: tools/try_mutant.sh <patch.diff> <prop> [<prop> ...]
 # applies the patch to /repo, runs the quick checks, reverts. Never commits.
 set -u
-patch="$1"; shift
+patch="$(realpath "$1")"; shift
 cd /repo || exit 9
 if ! git diff --quiet; then echo "repo dirty"; exit 9; fi
 if ! git apply --check "$patch" 2>/dev/null; then
-  if ! git apply --3way "$patch" 2>/dev/null; then echo "PATCH-DOES-NOT-APPLY $patch"; git checkout -- . ; exit 8; fi
+  if ! git apply --3way "$patch" 2>/dev/null; then echo "PATCH-DOES-NOT-APPLY $patch"; git reset -q --hard HEAD; exit 8; fi
   git reset -q
 else
   git apply "$patch"
@@ -19,5 +19,5 @@ for p in "$@"; do
   echo "$out" | grep -E "^(VIOLATION|INCONCLUSIVE|  key=|KNOWN)" | head -8
   [ $rc -ne 1 ] && rc_all=1
 done
-git checkout -- .
+git reset -q --hard HEAD
 exit $rc_all
